@@ -297,7 +297,10 @@ def _check_init(model, q, pos, res, out):
                             f'only lemmas of words of pos {k!r}', sorted(extra),
                             note=f'key {k!r}; lemmas({k!r}) & candidates = '
                                  f'{sorted(vs - extra)}'))
-    for p in considered(pos):
+    # "for each part of speech": an initialised Morphy knows the lemmas and the further forms
+    # of every part of speech, also of those that have no detachment rules
+    every = sorted(model.lemmas) if pos is None else ([pos] if pos in model.lemmas else [])
+    for p in sorted(set(considered(pos)) | set(every)):
         got = res.get(p, set())
         for reason, must in sorted(model.sources(q, p).items()):
             missing = must - got
